@@ -138,11 +138,12 @@ func c14Custom(o opts, g *gen.G, w *emit.Writer) error {
 				ru, what = ovsdb.RowUpdate2{Delete: &ovsdb.Row{}}, "delete"
 				present[u] = false
 			case g.Chance(0.5):
-				m, _ := ovsdb.NewOvsMap(map[string]int{fmt.Sprintf("k%d", g.Intn(3)): 1 + g.Intn(5)})
+				// a pair the map does not hold yet (an identical pair would be removed: still a change)
+				m, _ := ovsdb.NewOvsMap(map[string]int{fmt.Sprintf("k%d", g.Intn(3)): 1000*(si+1) + g.Intn(5)})
 				row := ovsdb.Row{"stats": m}
 				ru, what = ovsdb.RowUpdate2{Modify: &row}, "modify stats (ignored by the model's own equality)"
 			default:
-				row := ovsdb.Row{"n": 2 + g.Intn(50)}
+				row := ovsdb.Row{"n": 100*(si+1) + g.Intn(50)} // never the value the row holds
 				ru, what = ovsdb.RowUpdate2{Modify: &row}, "modify n"
 			}
 			hist = append(hist, what+" "+u)
